@@ -520,6 +520,32 @@ class IRef:
     def S(self):
         return G.Sites(self.kinds, self.SI)
 
+    def exact_zero(self):
+        """True iff the state is the zero vector by the pattern of exact zeros of its tensors: bond index a of the
+        left end of the unit cell is connected to b at its right end iff some sequence of local states gives a product
+        of non-zero entries; without a closed path through chi unit cells every amplitude of the infinite state is a sum
+        of products that each contain an exact zero (typical cause: a term that changes a conserved charge in every unit
+        cell).  The numerical eigenvalues of such a nilpotent transfer matrix need not be small, hence this test."""
+        cell = None
+        for M in self.Ms:
+            pat = (np.abs(M) > 0).any(axis=1).astype(np.int64)
+            cell = pat if cell is None else ((cell @ pat) > 0).astype(np.int64)
+        if cell.shape[0] != cell.shape[1]:
+            return False
+        reach = cell
+        for _ in range(cell.shape[0]):
+            reach = ((reach @ cell) > 0).astype(np.int64)
+            if not reach.any():
+                return True
+        return False
+
+    def ratio(self, eta0):
+        """|O psi|^2 / |psi|^2 per unit cell (0. for the zero state)"""
+        with np.errstate(all='ignore'):
+            if not all(np.isfinite(M).all() and np.abs(M).max() > 0 for M in self.Ms) or self.exact_zero():
+                return 0.
+            return abs(self.tm().eta) / eta0
+
     def two_site(self, i, fn):
         L = len(self.Ms)
         a, b = i % L, (i + 1) % L
@@ -556,6 +582,9 @@ class IRef:
                 d0, d1 = S.dims[i % L], S.dims[(i + 1) % L]
                 m4 = m.reshape(d0, d1, d0, d1)
                 self.two_site(i, lambda th: np.einsum('pqrs,arsb->apqb', m4, th))
+            self.raw_ratio = self.ratio(eta0)
+            if not (self.raw_ratio > 1e-12):
+                return                                # the documented result is the zero state
             if not op.get('renormalize', False):
                 self.norm = self.norm * np.sqrt(abs(self.tm().eta) / eta0)
         elif t == 'apply_local_term':
@@ -572,8 +601,7 @@ class IRef:
                     elif s_ < i and op.get('autoJW', True) and S.needs_JW(i % L, name):
                         m = m @ jw_diag(S, s_ % L)
                 self.Ms[s_ % L] = np.einsum('pq,aqb->apb', m, self.Ms[s_ % L])
-            with np.errstate(all='ignore'):
-                self.raw_ratio = abs(self.tm().eta) / eta0 if all(np.isfinite(M).all() and np.abs(M).max() > 0 for M in self.Ms) else 0.
+            self.raw_ratio = self.ratio(eta0)
             if not (self.raw_ratio > 1e-12):
                 return                                # the documented result is the zero state
             if not op.get('renormalize', False):
@@ -676,6 +704,34 @@ def gen_infinite_ops(rng, nrng, kinds, SI, nops, real_state=False):
             ops.append({'op': 'enlarge_chi', 'extra': [rng.choice([0, 1, 2]) for _ in range(L)], 'seed': rng.randrange(1 << 30)})
             break
     return ops
+
+
+APPLY_OPS = ('apply_local_op', 'apply_product_op', 'apply_local_term', 'add')       # can produce the zero vector
+
+
+def documented_zero(case, D, SI, step):
+    """is the documented result of the operator application case['ops'][step] (dense / explicit unit-cell reference
+    of the history before it) the zero vector?  False when the reference cannot be reconstructed (after a compression
+    the reference continues from the compressed state of the run)."""
+    spec = case['state']
+    ops = case['ops']
+    if any(o2['op'] in ('compress', 'compress_svd') for o2 in ops[:step]):
+        return False
+    if spec['bc'] == 'finite':
+        fr = FRef(D['vec'], spec['sites'], SI)
+        for o2 in ops[:step]:
+            fr.apply(o2, G.build_data(o2['other'], SI) if o2['op'] == 'add' else None)
+        n0 = np.linalg.norm(fr.vec)
+        o3 = dict(ops[step])
+        o3['renormalize'] = False
+        fr.apply(o3, G.build_data(o3['other'], SI) if o3['op'] == 'add' else None)
+        return bool(np.linalg.norm(fr.vec) < 1e-9 * max(1., n0))
+    ir = IRef(D['Ms'], spec['sites'], SI)
+    for o2 in ops[:step + 1]:
+        ir.apply(o2)
+        if not (ir.raw_ratio > 1e-9):
+            return o2 is ops[step]
+    return False
 
 
 def check_infinite_case(ctx, case, r, A, key, D, SI, perm_lits, perm_meta):
@@ -850,26 +906,17 @@ def main(ctx):
                              e['type'], e['msg'][:200]), info, match_key='C09:%s:%s:JW-refused' % (bc, opx['op']))
             elif any(m in e['msg'] for m in REFUSALS):
                 ctx.count(bc + '-refused', [spec, case['ops']], nontrivial=False)     # explicit, documented refusal
+            elif opx['op'] in APPLY_OPS and documented_zero(case, D, SI, e['step']):
+                # the documented result of the operator application / linear combination is the zero vector, which no (normalised) MPS
+                # represents: the property says nothing about it, and tenpy documents no particular exception for it
+                # ('destroys state', ZeroDivisionError in canonical_form, ArpackError 'Starting vector is zero' of the
+                # nilpotent transfer matrix of an infinite state have all been observed)
+                ctx.count(bc + '-zero-result', [spec, case['ops'][:e['step'] + 1]], nontrivial=False)
             elif 'destroys state' in e['msg'] or e['type'] == 'ZeroDivisionError':
                 # legitimate only when the documented result is the zero vector
                 ok = False
                 if any(o2['op'] in ('compress', 'compress_svd') for o2 in case['ops'][:e['step']]):
                     ok = True      # (reference not reconstructible here: the compressed state is taken from the run)
-                elif bc == 'finite':
-                    fr = FRef(D['vec'], spec['sites'], SI)
-                    for o2 in case['ops'][:e['step']]:
-                        fr.apply(o2, G.build_data(o2['other'], SI) if o2['op'] == 'add' else None)
-                    n0 = np.linalg.norm(fr.vec)
-                    fr2 = FRef(fr.vec, fr.kinds, SI)
-                    o3 = dict(opx)
-                    o3['renormalize'] = False
-                    fr2.apply(o3, G.build_data(o3['other'], SI) if o3['op'] == 'add' else None)
-                    ok = np.linalg.norm(fr2.vec) < 1e-9 * max(1., n0)
-                elif opx['op'] == 'apply_local_term':
-                    ir = IRef(D['Ms'], spec['sites'], SI)
-                    for o2 in case['ops'][:e['step'] + 1]:
-                        ir.apply(o2)
-                    ok = not (ir.raw_ratio > 1e-9)
                 if not ok:
                     ctx.fail('oracle', '%s raised %s: %s although the result is not the zero vector' % (opx['op'], e['type'], e['msg'][:150]), info,
                              match_key='C09:%s:%s:raises' % (bc, opx['op']))
@@ -919,7 +966,7 @@ def main(ctx):
         'C09 model: permutation loop and structure operations on labels/exponents/dimensions; block structure of add (Model/MpsAdd.v, stream add-blocks: integer tensors, trivial charges, canonical_form_finite stubbed); other tensor contents, SVD splits, compression and the canonicalisation inside add are oracle-checked only',
         'C09 oracle: dense states in the stored local basis (site operator matrices taken from the site classes, which C12 checks); fermionic signs of site permutations computed from occupation parities; '
         'operators whose Jordan-Wigner string is applied through bond charges are compared up to the documented global sign (relative signs are compared) and are only generated on chains whose sites are all fermionic; a refusal (cannot extract JW signs) is accepted only when no conserved charge carries the fermion parity; '
-        'histories whose documented result is the zero vector (|O psi| < 1e-9 |psi|) are not compared beyond that point; compression is checked against the angle bound sum arcsin sqrt(eps_i); '
+        'histories whose documented result is the zero vector (|O psi| < 1e-9 |psi|; infinite: dominant eigenvalue ratio of the unit-cell transfer matrix < 1e-9, or the transformed unit-cell tensors have no closed path of non-zero entries through the unit cell = nilpotent transfer matrix, which is what a term changing a conserved charge in every unit cell produces) are excluded from that point on: no normalised MPS represents the zero vector, so the property cannot speak about it, and whatever exception the operator application raises there (ValueError destroys state, ZeroDivisionError, ArpackError starting vector is zero) is accepted, while an exception on a non-zero documented result is reported; compression is checked against the angle bound sum arcsin sqrt(eps_i); '
         'infinite states through reduced density matrices from the transfer matrix of explicitly transformed unit-cell tensors',
     ]
     return ctx.finish(RULE, 'theorems of coq/Props/C09.v on the models; permute_sites swap sequences and structural label/dimension bookkeeping replayed on the models; '
